@@ -29,8 +29,13 @@ void suite_force(int tier) {
             if ((gone >> i) & 1) continue;
             if ((bad >> i) & 1) {
                 unsigned char *m = malloc(s.flen); memcpy(m, s.all[i], s.flen);
-                int kind = (int)rnd(c.ct == 2 ? 4 : 3);
+                int kind = (int)rnd(c.ct == 2 ? 6 : 3);
                 switch (kind) {
+                case 4: case 5: {   /* payload bit + stored checksum replaced by a special value and re-sealed (CRC32 only) */
+                    uint64_t bit = rnd64() % ((s.flen - HDR) * 8); m[HDR + bit / 8] ^= (unsigned char)(1u << (bit % 8));
+                    uint32_t v = kind == 4 ? 0u : 0xffffffffu;
+                    if ((uint32_t)crc32(0, m + HDR, (uInt)(s.flen - HDR)) == v) v ^= 0x5a5a5a5au;   /* keep it a mismatch */
+                    memcpy(m + 21, &v, 4); reseal(m); } break;
                 case 3: { uint64_t bit = rnd64() % ((s.flen - HDR) * 8); m[HDR + bit / 8] ^= (unsigned char)(1u << (bit % 8)); } break;  /* payload bit (CRC32 only) */
                 case 0: m[54] ^= (unsigned char)(1 + rnd(255)); reseal(m); break;                       /* backend id */
                 case 1: { uint32_t v; memcpy(&v, m + 55, 4); v += 1 + rnd(3); memcpy(m + 55, &v, 4); reseal(m); } break;  /* backend version */
@@ -212,11 +217,22 @@ void suite_args(int tier) {
         int edge = (k <= 1 || m <= 1 || k + m >= 31);
         if (!tier && !edge && rnd(25) != 0) continue;
         if (!tier && edge && b >= 2 && rnd(8) != 0) continue;
-        if (!tier && edge && b < 2 && rnd(2) != 0) continue;
         if (tier && b >= 2 && !edge && rnd(6) != 0) continue;
         int w = (bes[b] == 0) ? (int)((int[]){0, 8, 16, 32, 7, -1, 64}[rnd(7)]) : 0;
         op_create(bes[b], k, m, m, w);
         stat_add("args.create_box", 1);
+    }
+    /* flat XOR: the whole (k, m, hd) box around the supported tables, exhaustively */
+    for (int hd = 0; hd <= 6; hd++) for (int m = 0; m <= 9; m++) for (int k = 0; k <= 34; k++) {
+        if (!tier && (hd < 2 || hd > 5) && rnd(4) != 0) continue;
+        op_create(3, k, m, hd, 0);
+        stat_add("args.create_xor_box", 1);
+    }
+    /* rs_vand: hd is ignored beyond the documented checks, w restricted to 16 (or default) */
+    for (int k = 1; k <= 32; k += (tier ? 1 : 3)) for (int m = 0; m <= 33 - k && m <= 32; m += (tier ? 1 : 5)) {
+        op_create(6, k, m, (int)rnd(6), 0);
+        op_create(6, k, 33 - k > 0 ? 32 - k : 0, 1, 0);
+        stat_add("args.create_rs_box", 2);
     }
 }
 
@@ -228,6 +244,8 @@ void suite_args(int tier) {
  *   u<slot>                      encode+decode round trip through slot's descriptor -> 0 / error code
  *   q<slot>                      fragment-size query     -> value / error
  *   f<slot>                      failed create (unsupported XOR shape) into slot -> error code
+ *   n:<value>                    overwrite the exported counter next_backend_desc (so that the counter runs into
+ *                                live descriptors, as it does after wrapping)          -> 0
  * `preset` is stored into next_backend_desc before the history starts (all instances destroyed).
  */
 #define SLOTS 4
@@ -238,6 +256,7 @@ static void run_hist(void *va, FILE *out) {
     int slot[SLOTS] = { -1, -1, -1, -1 };
     cfg_t scfg[SLOTS]; memset(scfg, 0, sizeof scfg);
     next_backend_desc = h->preset;
+    int live[128], nlive = 0, viol = 0; cfg_t lcfg[128];
     unsigned char data[29]; for (int i = 0; i < 29; i++) data[i] = (unsigned char)(i * 11 + 3);
     for (int o = 0; o < h->nops; o++) {
         char *op = h->ops[o];
@@ -248,11 +267,19 @@ static void run_hist(void *va, FILE *out) {
             sscanf(op + 3, "%d:%d:%d:%d", &be, &k, &m, &hd);
             struct ec_args ar; memset(&ar, 0, sizeof ar); ar.k = k; ar.m = m; ar.hd = hd; ar.ct = CHKSUM_CRC32;
             res = liberasurecode_instance_create((ec_backend_id_t)be, &ar);
-            if (res > 0) { slot[s] = res; scfg[s] = (cfg_t){ be, k, m, hd, 2 }; }
+            if (res > 0) {
+                /* direct oracle: a descriptor that is still live is never handed out again */
+                for (int q = 0; q < nlive; q++) if (live[q] == res) viol = 1;
+                if (nlive < 128) { lcfg[nlive] = (cfg_t){ be, k, m, hd, 2 }; live[nlive++] = res; }
+                slot[s] = res; scfg[s] = (cfg_t){ be, k, m, hd, 2 };
+            }
         } else if (op[0] == 'd') {
             res = liberasurecode_instance_destroy(slot[s]);
+            if (res == 0) for (int q = 0; q < nlive; q++) if (live[q] == slot[s]) { --nlive; live[q] = live[nlive]; lcfg[q] = lcfg[nlive]; break; }
         } else if (op[0] == 'u') {
             char **ed = NULL, **ep = NULL; uint64_t fl = 0;
+            /* the shape belongs to the descriptor, not to the slot: a stale handle may name a newer instance */
+            for (int q = 0; q < nlive; q++) if (live[q] == slot[s]) scfg[s] = lcfg[q];
             res = liberasurecode_encode(slot[s], (char *)data, 29, &ed, &ep, &fl);
             if (res == 0) {
                 /* drop the first data fragment, decode from the rest */
@@ -269,9 +296,12 @@ static void run_hist(void *va, FILE *out) {
             }
         } else if (op[0] == 'q') {
             res = liberasurecode_get_fragment_size(slot[s], 1000);
+        } else if (op[0] == 'n') {
+            next_backend_desc = atoi(op + 2); res = 0;
         }
         fprintf(out, "%s%d", o ? "," : "", res);
     }
+    if (viol) fprintf(out, " !VIOL live descriptor handed out again");
     /* leave nothing behind */
     for (int s = 0; s < SLOTS; s++) if (slot[s] > 0) liberasurecode_instance_destroy(slot[s]);
 }
@@ -288,7 +318,8 @@ static void hist_emit(hist_t *h) {
 static void hist_random_op(char *buf, int allow_fail) {
     static const int shapes[][4] = { {6,2,1,1}, {6,3,2,2}, {3,3,3,3}, {0,2,1,1}, {6,4,2,2}, {3,5,5,3} };
     int s = (int)rnd(SLOTS);
-    switch (rnd(allow_fail ? 7 : 6)) {
+    switch (rnd(allow_fail ? 8 : 6)) {
+    case 7: { static const int vals[] = { 0, 1, 2, 0x7fffffff, 0x7ffffffe, -1, 3 }; sprintf(buf, "n:%d", vals[rnd(7)]); } break;
     case 0: case 1: { const int *sh = shapes[rnd(6)]; sprintf(buf, "c%d:%d:%d:%d:%d", s, sh[0], sh[1], sh[2], sh[3]); } break;
     case 2: case 3: sprintf(buf, "d%d", s); break;
     case 4: sprintf(buf, "u%d", s); break;
@@ -310,6 +341,28 @@ void suite_hist(int tier) {
         long c = code;
         for (int i = 0; i < depth; i++) { strcpy(h.ops[i], alpha[c % na]); c /= na; }
         hist_emit(&h);
+    }
+    /* the counter runs into a block of live descriptors (what happens after a wrap): every order of creation,
+       every landing point, with and without holes */
+    {
+        static const char *mk[] = { "c0:6:2:1:1", "c1:6:3:2:2", "c2:3:3:3:3", "c3:0:2:1:1" };
+        static const int land[] = { 0, 1, 2, 3, 0x7fffffff, 0x7ffffffe, -7 };
+        for (int nlive = 2; nlive <= 4; nlive++) for (unsigned l = 0; l < 7; l++) for (int hole = -1; hole < nlive; hole++) for (int pre = 0; pre < 2; pre++) {
+            if (!tier && nlive == 4 && hole >= 0 && rnd(2)) continue;
+            hist_t h; h.nops = 0; h.preset = pre ? 0x7ffffffd : 0;
+            for (int i = 0; i < nlive; i++) strcpy(h.ops[h.nops++], mk[i]);
+            if (hole >= 0) sprintf(h.ops[h.nops++], "d%d", hole);
+            sprintf(h.ops[h.nops++], "n:%d", land[l]);
+            /* new instances land in the freed slot (or overwrite slot 0's handle: its instance stays live) */
+            sprintf(h.ops[h.nops++], "c%d:6:2:1:1", hole >= 0 ? hole : 0);
+            for (int i = 0; i < nlive; i++) sprintf(h.ops[h.nops++], "u%d", i);
+            sprintf(h.ops[h.nops++], "c%d:6:4:2:2", hole >= 0 ? hole : 1);
+            for (int i = 0; i < nlive; i++) sprintf(h.ops[h.nops++], "u%d", i);
+            for (int i = 0; i < nlive; i++) sprintf(h.ops[h.nops++], "d%d", i);
+            for (int i = 0; i < nlive; i++) sprintf(h.ops[h.nops++], "d%d", i);
+            hist_emit(&h);
+            stat_add("hist.collision_histories", 1);
+        }
     }
     /* random long histories */
     int nh = tier ? 150 : 25;
